@@ -1,7 +1,8 @@
-(* C22 proofs: change discipline => one height's undo restores the state it was
-   recorded at; rollback over many heights = replay of the prefix. *)
+(* C22 proofs: change discipline => one entry's undo restores the state it was
+   recorded at; rollback over many entries = replay of the prefix. *)
 From Coq Require Import ZArith Bool List Lia Sorted.
-From ELA Require Import lib.History model.C22_CrState.
+From ELA Require Import lib.History.
+From ELA Require Import model.C22_CrState.
 Import ListNotations.
 Local Open Scope Z_scope.
 
@@ -10,11 +11,6 @@ Definition meq (m m' : mem) : Prop := forall k, get k m = get k m'.
 Lemma meq_refl : forall m, meq m m. Proof. intros m k; reflexivity. Qed.
 Lemma meq_trans : forall a b c, meq a b -> meq b c -> meq a c.
 Proof. intros a b c H1 H2 k. rewrite H1. apply H2. Qed.
-Lemma meq_sym : forall a b, meq a b -> meq b a.
-Proof. intros a b H k. symmetry. apply H. Qed.
-
-Lemma get_put : forall k k' v m, get k (put k' v m) = if k =? k' then v else get k m.
-Proof. reflexivity. Qed.
 
 Definition dos (cs : list chg) (m : mem) : mem := fold_left (fun s c => ch_do c s) cs m.
 Definition undos (cs : list chg) (m : mem) : mem := fold_left (fun s c => ch_undo c s) cs m.
@@ -26,60 +22,59 @@ Proof. induction cs as [|c r IH]; simpl; intros; auto. Qed.
 
 Lemma ch_undo_meq : forall c m m', meq m m' -> meq (ch_undo c m) (ch_undo c m').
 Proof.
-  intros c m m' H k. destruct c; unfold ch_undo; rewrite !get_put; repeat rewrite H; reflexivity.
+  intros c m m' H k. destruct c; unfold ch_undo, put; simpl; repeat rewrite H; reflexivity.
 Qed.
 Lemma undos_meq : forall cs m m', meq m m' -> meq (undos cs m) (undos cs m').
 Proof. induction cs as [|c r IH]; simpl; intros; auto. apply IH. now apply ch_undo_meq. Qed.
 
-(* per cell *)
-Definition cell (c : chg) : Z := match c with Add k _ => k | Assign k _ _ => k end.
+(* the cell and undo value of a change whose undo assigns *)
+Definition uassign (c : chg) : option (Z * Z) :=
+  match c with
+  | Add _ _ => None
+  | Assign k _ old | AddRestore k _ old | Restore k old => Some (k, old)
+  end.
 Definition adds (k : Z) (cs : list chg) : Z :=
   fold_right (fun c a => match c with Add k' d => if k =? k' then d + a else a | _ => a end) 0 cs.
 Definition assigned (k : Z) (cs : list chg) : bool :=
-  existsb (fun c => match c with Assign k' _ _ => k =? k' | _ => false end) cs.
-Definition added (k : Z) (cs : list chg) : bool :=
-  existsb (fun c => match c with Add k' _ => k =? k' | _ => false end) cs.
+  existsb (fun c => match uassign c with Some (k', _) => k =? k' | None => false end) cs.
 
 Lemma dos_unassigned : forall k cs m, assigned k cs = false -> get k (dos cs m) = get k m + adds k cs.
 Proof.
   induction cs as [|c r IH]; simpl; intros m H; [lia|].
   apply orb_false_iff in H as [H1 H2]. unfold dos in *. simpl. rewrite IH; auto.
-  destruct c; simpl.
-  - destruct (k =? k0) eqn:E; [apply Z.eqb_eq in E; subst|]; lia.
-  - rewrite H1. lia.
+  destruct c; simpl in *; try rewrite H1; try lia.
+  destruct (k =? k0) eqn:E; [apply Z.eqb_eq in E; subst|]; lia.
 Qed.
 
 Lemma undos_unassigned : forall k cs m, assigned k cs = false -> get k (undos cs m) = get k m - adds k cs.
 Proof.
   induction cs as [|c r IH]; simpl; intros m H; [lia|].
   apply orb_false_iff in H as [H1 H2]. unfold undos in *. simpl. rewrite IH; auto.
-  destruct c; simpl.
-  - destruct (k =? k0) eqn:E; [apply Z.eqb_eq in E; subst|]; lia.
-  - rewrite H1. lia.
+  destruct c; simpl in *; try rewrite H1; try lia.
+  destruct (k =? k0) eqn:E; [apply Z.eqb_eq in E; subst|]; lia.
 Qed.
 
 Lemma undos_assigned : forall k v0 cs m,
-  added k cs = false ->
-  (forall k' v old, In (Assign k' v old) cs -> k' = k -> old = v0) ->
+  addedb k cs = false ->
+  (forall c old, In c cs -> uassign c = Some (k, old) -> old = v0) ->
   get k (undos cs m) = if assigned k cs then v0 else get k m.
 Proof.
   induction cs as [|c r IH]; simpl; intros m Ha Ho; auto.
   apply orb_false_iff in Ha as [H1 H2]. unfold undos in *. simpl.
   rewrite IH; auto; [|intros; eapply Ho; eauto].
-  destruct c; simpl.
-  - rewrite H1. simpl. reflexivity.
-  - destruct (k =? k0) eqn:E; simpl.
-    + apply Z.eqb_eq in E; subst k0.
-      destruct (assigned k r); auto. eapply Ho; eauto.
-    + reflexivity.
+  destruct c; simpl in *.
+  - rewrite H1. reflexivity.
+  - destruct (k =? k0) eqn:E; simpl; auto.
+    apply Z.eqb_eq in E; subst k0. destruct (assigned k r); auto. eapply Ho; eauto.
+  - destruct (k =? k0) eqn:E; simpl; auto.
+    apply Z.eqb_eq in E; subst k0. destruct (assigned k r); auto. eapply Ho; eauto.
+  - destruct (k =? k0) eqn:E; simpl; auto.
+    apply Z.eqb_eq in E; subst k0. destruct (assigned k r); auto. eapply Ho; eauto.
 Qed.
 
-(* the change discipline at recording state s: a cell that is assigned in the
-   block is not also added to, and every assignment's undo value is the cell's
-   value in s *)
 Definition disc (s : mem) (cs : list chg) : Prop :=
   forall k, assigned k cs = true ->
-    added k cs = false /\ forall k' v old, In (Assign k' v old) cs -> k' = k -> old = get k s.
+    addedb k cs = false /\ forall c old, In c cs -> uassign c = Some (k, old) -> old = get k s.
 
 Lemma entry_good : forall s cs, disc s cs -> meq (undos cs (dos cs s)) s.
 Proof.
@@ -88,70 +83,103 @@ Proof.
   - rewrite undos_unassigned, dos_unassigned; auto. lia.
 Qed.
 
-(* the changes the modelled transactions generate are disciplined as soon as
-   a candidate being unregistered has no cancel height yet (the Go undo resets
-   CancelHeight to the literal 0) *)
+Lemma discb_sound : forall s cs, discb s cs = true -> disc s cs.
+Proof.
+  intros s cs H k Ha. unfold discb in H. rewrite forallb_forall in H.
+  apply existsb_exists in Ha as [c0 [Hin0 Hc0]].
+  destruct (uassign c0) as [[k0 old0]|] eqn:E0; [|discriminate]. apply Z.eqb_eq in Hc0; subst k0.
+  split.
+  - specialize (H _ Hin0). destruct c0; simpl in E0; try discriminate; injection E0 as -> ->;
+      apply andb_true_iff in H as [_ H]; now apply negb_true_iff in H.
+  - intros c old Hin Hu. specialize (H _ Hin).
+    destruct c; simpl in Hu; try discriminate; injection Hu as -> ->;
+      apply andb_true_iff in H as [H _]; now apply Z.eqb_eq in H.
+Qed.
+
+(* the simple kinds are disciplined by construction *)
+Definition simple (t : tx) : Prop :=
+  match t with
+  | TxVote _ | TxCancelVote _ | TxUnregister _ | TxReview _ _ _ | TxProposalBudget _
+  | TxTrackingRelease _ | TxRejectVote _ _ | TxImpeachVote _ _ => True
+  | _ => False
+  end.
 Definition unreg_fresh (s : mem) (txs : list tx) : Prop :=
   forall i, In (TxUnregister i) txs -> get (cancelh i) s = 0.
 
 Lemma in_mk : forall s h txs c, In c (mk_changes s h txs) -> exists t, In t txs /\ In c (tx_changes s h t).
 Proof. intros. unfold mk_changes in H. apply in_flat_map in H. exact H. Qed.
 
-Lemma assigned_true : forall k cs, assigned k cs = true -> exists v old, In (Assign k v old) cs.
+Lemma addedb_false : forall k cs, (forall d, ~ In (Add k d) cs) -> addedb k cs = false.
 Proof.
-  intros k cs H. apply existsb_exists in H as [c [Hin Hc]]. destruct c; [discriminate|].
-  apply Z.eqb_eq in Hc; subst. eauto.
+  intros k cs H. destruct (addedb k cs) eqn:E; auto. apply existsb_exists in E as [c [Hin Hc]].
+  destruct c; try discriminate. apply Z.eqb_eq in Hc; subst. exfalso. eapply H; eauto.
 Qed.
 
-Lemma added_false : forall k cs, (forall d, ~ In (Add k d) cs) -> added k cs = false.
+(* which cells a simple transaction adds to / assigns *)
+Lemma simple_add_cell : forall s h t k d, simple t -> In (Add k d) (tx_changes s h t) ->
+  exists i, k = votes i \/ k = used \/ k = reject i \/ k = imp i.
 Proof.
-  intros k cs H. destruct (added k cs) eqn:E; auto. apply existsb_exists in E as [c [Hin Hc]].
-  destruct c; [|discriminate]. apply Z.eqb_eq in Hc; subst. exfalso. eapply H; eauto.
+  intros s h t k d Hs Hin. destruct t; simpl in Hs; try contradiction; simpl in Hin.
+  - apply in_map_iff in Hin as [x [Hx _]]. injection Hx as Hk _. exists (fst x). left. auto.
+  - apply in_map_iff in Hin as [x [Hx _]]. injection Hx as Hk _. exists (fst x). left. auto.
+  - destruct Hin as [H|[H|[]]]; discriminate.
+  - destruct Hin as [H|[]]; discriminate.
+  - destruct Hin as [H|[]]. injection H as Hk _. exists 0. right. left. auto.
+  - destruct Hin as [H|[]]. injection H as Hk _. exists 0. right. left. auto.
+  - destruct Hin as [H|[]]. injection H as Hk _. exists p. right. right. left. auto.
+  - destruct Hin as [H|[]]. injection H as Hk _. exists m. right. right. right. auto.
 Qed.
 
-Lemma mk_disc : forall s h txs, unreg_fresh s txs -> disc s (mk_changes s h txs).
+Lemma simple_assign_cell : forall s h t c k old, simple t -> In c (tx_changes s h t) ->
+  uassign c = Some (k, old) ->
+  (exists i, k = cancelh i /\ old = 0 /\ t = TxUnregister i) \/
+  ((exists i, k = cstate i) \/ (exists p m, k = review p m)) /\ old = get k s.
 Proof.
-  intros s h txs Hf k Ha. apply assigned_true in Ha as (v & old & Hin).
-  apply in_mk in Hin as [t [Ht Hc]].
-  assert (Hcell : (exists i, k = cancelh i \/ k = cstate i) \/ (exists p m, k = review p m)).
-  { destruct t; simpl in Hc.
-    - apply in_map_iff in Hc as [x [Hx _]]; discriminate.
-    - apply in_map_iff in Hc as [x [Hx _]]; discriminate.
-    - destruct Hc as [Hc|[Hc|[]]]; injection Hc as Hk _ _; rewrite <- Hk; left; eauto.
-    - destruct Hc as [Hc|[]]; injection Hc as Hk _ _; rewrite <- Hk; right; eauto.
-    - destruct Hc as [Hc|[]]; discriminate.
-    - destruct Hc as [Hc|[]]; discriminate. }
+  intros s h t c k old Hs Hin Hu. destruct t; simpl in Hs; try contradiction; simpl in Hin.
+  - apply in_map_iff in Hin as [x [<- _]]. discriminate.
+  - apply in_map_iff in Hin as [x [<- _]]. discriminate.
+  - destruct Hin as [<-|[<-|[]]]; simpl in Hu; injection Hu as <- <-.
+    + left. eauto.
+    + right. split; eauto.
+  - destruct Hin as [<-|[]]. simpl in Hu. injection Hu as <- <-. right. split; eauto.
+  - destruct Hin as [<-|[]]. discriminate.
+  - destruct Hin as [<-|[]]. discriminate.
+  - destruct Hin as [<-|[]]. discriminate.
+  - destruct Hin as [<-|[]]. discriminate.
+Qed.
+
+Lemma mk_disc : forall s h txs, Forall simple txs -> unreg_fresh s txs -> disc s (mk_changes s h txs).
+Proof.
+  intros s h txs Hsim Hf k Ha. rewrite Forall_forall in Hsim.
+  apply existsb_exists in Ha as [c0 [Hin0 Hc0]].
+  destruct (uassign c0) as [[k0 old0]|] eqn:E0; [|discriminate]. apply Z.eqb_eq in Hc0; subst k0.
+  apply in_mk in Hin0 as [t0 [Ht0 Hc0]].
+  pose proof (simple_assign_cell s h t0 c0 k old0 (Hsim _ Ht0) Hc0 E0) as Hcell.
   split.
-  - apply added_false. intros d Hd. apply in_mk in Hd as [t' [_ Hc']].
-    assert (Hk : (exists i, k = votes i) \/ k = used).
-    { destruct t'; simpl in Hc'.
-      - apply in_map_iff in Hc' as [x [Hx _]]; injection Hx as Hk _; rewrite <- Hk; left; eauto.
-      - apply in_map_iff in Hc' as [x [Hx _]]; injection Hx as Hk _; rewrite <- Hk; left; eauto.
-      - destruct Hc' as [Hc'|[Hc'|[]]]; discriminate.
-      - destruct Hc' as [Hc'|[]]; discriminate.
-      - destruct Hc' as [Hc'|[]]; injection Hc' as Hk _; rewrite <- Hk; now right.
-      - destruct Hc' as [Hc'|[]]; injection Hc' as Hk _; rewrite <- Hk; now right. }
-    unfold votes, used, cancelh, cstate, review in *.
-    destruct Hcell as [[i [->| ->]]|[p [m ->]]], Hk as [[j Hj]|Hj]; lia.
-  - intros k' v' old' Hin' ->. apply in_mk in Hin' as [t' [Ht' Hc']].
-    destruct t'; simpl in Hc'.
-    + apply in_map_iff in Hc' as [x [Hx _]]; discriminate.
-    + apply in_map_iff in Hc' as [x [Hx _]]; discriminate.
-    + destruct Hc' as [Hc'|[Hc'|[]]]; injection Hc' as <- _ <-; auto.
-      symmetry. now apply Hf.
-    + destruct Hc' as [Hc'|[]]; injection Hc' as <- _ <-; auto.
-    + destruct Hc' as [Hc'|[]]; discriminate.
-    + destruct Hc' as [Hc'|[]]; discriminate.
+  - apply addedb_false. intros d Hd. apply in_mk in Hd as [t' [Ht' Hc']].
+    destruct (simple_add_cell s h t' k d (Hsim _ Ht') Hc') as [j Hj].
+    unfold votes, used, reject, imp, cancelh, cstate, review, cell in *.
+    destruct Hcell as [[i [-> _]]|[[[i ->]|[p [m ->]]] _]]; destruct Hj as [Hj|[Hj|[Hj|Hj]]]; lia.
+  - intros c old Hin Hu. apply in_mk in Hin as [t [Ht Hc]].
+    destruct (simple_assign_cell s h t c k old (Hsim _ Ht) Hc Hu) as [[i (-> & -> & ->)]|[_ ->]]; auto.
+    symmetry. now apply Hf.
 Qed.
 
-(* ---- many heights *)
+(* ---- many entries *)
 Fixpoint good (s : mem) (bs : list (Z * list tx)) : Prop :=
   match bs with
   | [] => True
-  | b :: r => unreg_fresh s (snd b) /\ good (snd (commit_block s b)) r
+  | b :: r => disc s (mk_changes s (fst b) (snd b)) /\ good (snd (commit_block s b)) r
   end.
 
-Definition increasing (bs : list (Z * list tx)) : Prop := StronglySorted Z.lt (map fst bs).
+Lemma goodb_good : forall bs s, goodb s bs = true -> good s bs.
+Proof.
+  induction bs as [|b r IH]; simpl; intros s H; auto.
+  apply andb_true_iff in H as [H1 H2]. split; [now apply discb_sound|auto].
+Qed.
+
+(* heights never decrease: the entries of one block share its height *)
+Definition nondecreasing (bs : list (Z * list tx)) : Prop := StronglySorted Z.le (map fst bs).
 
 Lemma filter_above : forall k (bs : list (Z * list tx)),
   Forall (fun h => k < h) (map fst bs) -> filter (fun b => fst b <=? k) bs = [].
@@ -165,7 +193,7 @@ Lemma process_cons : forall s b r,
                         snd (process (snd (commit_block s b)) r)).
 Proof. intros. simpl. destruct (process _ r). reflexivity. Qed.
 
-Lemma rollback_eq_direct : forall k bs s0, increasing bs -> good s0 bs ->
+Lemma rollback_eq_direct : forall k bs s0, nondecreasing bs -> good s0 bs ->
   meq (rollback_to k (fst (process s0 bs)) (snd (process s0 bs))) (direct k s0 bs).
 Proof.
   intros k. induction bs as [|b r IH]; intros s0 Hi Hg.
@@ -183,11 +211,17 @@ Proof.
       unfold direct in IH. rewrite (filter_above k r Hall) in *. simpl in *.
       rewrite undo_order_map.
       eapply meq_trans; [apply undos_meq; exact IH|].
-      unfold s1, commit_block. simpl. rewrite do_all_map. apply entry_good. now apply mk_disc.
+      unfold s1, commit_block. simpl. rewrite do_all_map. now apply entry_good.
 Qed.
 
-(* the statement fails without the discipline: two assignments of one cell in
-   one height whose undo values differ are not undone by the forward order *)
 Lemma undisciplined_refuted :
   exists cs s, get 7 (undos cs (dos cs s)) <> get 7 s.
 Proof. exists [Assign 7 1 0; Assign 7 2 1], []. vm_compute. discriminate. Qed.
+
+(* a literal undo value that is not the recorded value: the second progress
+   tracking that finds FinalPaymentStatus already raised lowers it on rollback *)
+Lemma literal_undo_refuted :
+  exists s, get (final 1) s = 1 /\
+    let cs := mk_changes s 9 [TxTrack 1 TProgress 0 5 0 false [1; 2] 0] in
+    get (final 1) (undos cs (dos cs s)) = 0 /\ discb s cs = false.
+Proof. exists [(final 1, 1)]. vm_compute. repeat split. Qed.
